@@ -45,6 +45,9 @@ type TunParams struct {
 	// Cid: connection identifier to present instead of a fresh unique one (websocket only): tunnels of different
 	// users that follow each other on one gateway may well carry the same identifier
 	Cid string `json:"cid,omitempty"`
+	// CarryCookie: the tunnel request carries the session cookie of the browser that downloaded the connection file
+	// (the client address of a request is the address it comes from, whatever session it belongs to)
+	CarryCookie bool `json:"carryCookie,omitempty"`
 }
 
 func LoadScripts(path string) ([]Script, error) {
@@ -338,7 +341,23 @@ func (ps *ProtoSession) Open() error {
 	}
 	ps.Lines = append(ps.Lines, M{"ev": "reset", "script": s.ID, "origin": s.Origin, "transport": s.Transport, "job": s.Job, "pos": s.Pos,
 		"cfg": M{"tokenAuth": cfg.TokenAuth, "smartCard": cfg.SmartCard, "redir": rd, "idle": cfg.Idle}})
-	t, rep, err := ps.I.Open(ps.PC.OpenOpts())
+	oo := ps.PC.OpenOpts()
+	for _, st := range s.Steps {
+		if str(st, "cookie", "") == "ageing" {
+			if err := ps.PC.PrepareAgeing(); err != nil {
+				return err
+			}
+		}
+	}
+	if s.Tun.CarryCookie {
+		if err := ps.PC.EnsureMint(); err != nil {
+			return err
+		}
+		if ps.I.lastMintCookies != "" {
+			oo.Headers = append(oo.Headers, [2]string{"Cookie", ps.I.lastMintCookies})
+		}
+	}
+	t, rep, err := ps.I.Open(oo)
 	if err != nil {
 		return fmt.Errorf("open: %w", err)
 	}
@@ -354,6 +373,11 @@ func (ps *ProtoSession) Step(k int) (Reaction, error) {
 	i, s, cfg := ps.I, ps.S, ps.S.Cfg
 	st := s.Steps[k]
 	kind := str(st, "k", "other")
+	if kind == "idle" {
+		// the client keeps the connection open and says nothing for a while
+		time.Sleep(time.Duration(num(st, "ms", 1000)) * time.Millisecond)
+		return Reaction{}, nil
+	}
 	pkt, lp, err := ps.PC.Build(st)
 	if err != nil {
 		return Reaction{}, err
